@@ -124,7 +124,8 @@ class Negotiated:
             if isinstance(sent_asn4, ASN):
                 self.local_as = sent_asn4
         self.peer_as = self.received_open.asn
-        if self.received_open.asn == AS_TRANS and self.asn4:
+        # RFC 6793 4.1: between two 4-byte speakers the AS of the peer is the one in its capability
+        if self.asn4:
             asn4_capa = recv_capa.get(Capability.CODE.FOUR_BYTES_ASN, None)
             # ASN4 extends both Capability and ASN
             if isinstance(asn4_capa, ASN):
